@@ -5247,7 +5247,7 @@ bool SoPlexBase<R>::multBasis(R* vec, bool unscale)
    {
       int colbasisdim = numRows();
 
-      DSVectorBase<R> y(colbasisdim);
+      VectorBase<R> y(colbasisdim);
 
       y.clear();
 
@@ -5280,7 +5280,7 @@ bool SoPlexBase<R>::multBasis(R* vec, bool unscale)
                assert(index < numRows());
                assert(!_solver.isRowBasic(index));
 
-               y.add(x[i] * UnitVectorBase<R>(index));
+               y[index] += x[i];
             }
             // r corresponds to a column vector
             else
@@ -5293,10 +5293,10 @@ bool SoPlexBase<R>::multBasis(R* vec, bool unscale)
                {
                   DSVectorBase<R> col;
                   _solver.getColVectorUnscaled(index, col);
-                  y.add(x[i] * col);
+                  y.multAdd(x[i], col);
                }
-
-               y.add(x[i] * _solver.colVector(index));
+               else
+                  y.multAdd(x[i], _solver.colVector(index));
             }
          }
       }
